@@ -57,7 +57,7 @@ PROPS = {
             'unverified': ['<pre> -> white-space: pre mapping in the DOM pass']},
     'C13': {'text': 'Proof for the engine: in collapsing mode a whitespace character changes state only by recording one pending space when the line is non-empty and none is pending, so whitespace runs are equivalent to one space; whitespace between blocks is ignored.',
             'unverified': ['comment/span transparency in the DOM pass (bounded stand-in only)']},
-    'C14': {'text': 'Proof: insert_child places the marker first; flush paths keep every non-string element of the word; markers have zero width; pending markers go to the next text line exactly once and stay pending across borders; record_frag_start appends exactly one marker to the renderer\'s view; into_lines keeps markers left alone in the line buffer (D18).',
+    'C14': {'text': 'Proof: insert_child places the marker first (for a table, row group or row: in the first cell that is not definitely empty, else the first cell — first_cell_with_content, D27); flush paths keep every non-string element of the word; markers have zero width; pending markers go to the next text line exactly once and stay pending across borders; record_frag_start appends exactly one marker to the renderer\'s view; into_lines keeps markers left alone in the line buffer (D18).',
             'unverified': ['id/name extraction in process_dom_node (bounded stand-in only)']},
     'C15': {'text': 'Proof: each builder method changes exactly its field(s); wrap width is min(max_wrap_width, width); pad_to only appends spaces; strike-through filter and footnote switches follow the options.',
             'unverified': ['table border switches inside closures of render_table_row']},
